@@ -864,6 +864,26 @@ def main(argv):
         exit_code = K.EXIT_VIOLATION  # a demonstrated violation outranks a harness problem elsewhere
     for fid, (e, n) in sorted(known_hit.items()):
         print(f"KNOWN-FINDING: property={PROP} {e['what']} [{fid}; {n} occurrences in this run]")
+    # regression corpus: minimised scenarios of earlier violations, replayed on this tree's binaries
+    corpus = K.corpus_files(PROP)
+    corpus_hits, corpus_unusable = 0, []
+    for n, f in enumerate(corpus):
+        try:
+            doc = json.load(open(f))
+            run = {"variant": doc["variant"], "nsys": doc["nsys"], "solves": doc["solves"]}
+            wd = os.path.join(scratch, f"corpus{n}")
+            os.makedirs(wd, exist_ok=True)
+            r = execute(bins, list(doc.get("earlier_runs_in_same_process", [])) + [run], wd)[-1]
+            k, clause = doc["violating_solve"], doc["clause"]
+            got = r["clauses"][k] if k < len(r["clauses"]) else []
+        except (K.HarnessError, KeyError, TypeError, ValueError) as e:
+            corpus_unusable.append(f"{os.path.basename(f)}: {type(e).__name__}: {str(e)[:120]}")
+            continue
+        if clause in got:
+            corpus_hits += 1
+            print(f"violated clause: {clause}; variant={doc['variant']} (corpus scenario {os.path.basename(f)})")
+            print(f"VIOLATION property={PROP} replay={f}")
+            exit_code = K.EXIT_VIOLATION
 
     wall = timer.s()
     total_runs = stats["runs"]
@@ -871,6 +891,9 @@ def main(argv):
     reachable_triples = 6 * 3 * 3 - 2 * 3  # level 0 has a single sub-step: only 'first'(=last) bucket
     coverage = {
         "evaluations": stats["solves"],
+        "corpus_scenarios_replayed": len(corpus),
+        "corpus_scenarios_reproduced": corpus_hits,
+        "corpus_scenarios_unusable": corpus_unusable,
         "distinct_nontrivial": len(stats["traces"]),
         "rule": "one evaluation = one Solve/PyWrapSolve call of the rendered Naunet class under a scripted "
                 "integrator-outcome sequence; non-trivial = at least one scripted fault was actually consumed by "
@@ -918,7 +941,7 @@ def main(argv):
         },
         "build_s": round(build_s, 2),
     }
-    K.write_evidence(PROP, tier, seed, "fault_enumeration", coverage, wall, len(replays), [
+    K.write_evidence(PROP, tier, seed, "fault_enumeration", coverage, wall, len(replays) + corpus_hits, [
         "the mock reproduces CVODE's documented return conventions: flag<0 on failure with y and tret at the last time reached; CV_ILL_INPUT for tout<=t",
         "Boost integrate_adaptive calls the observer before every step and once at the end, and its errors derive from std::runtime_error",
         "flag classes as in the property text: -1..-4 recoverable, -6 reset, every other negative flag unrecoverable",
